@@ -98,14 +98,16 @@ class FakeFile(object):
         self.fd = vfs.next_fd
         vfs.next_fd += 1
         vfs.handles[self.fd] = path
+        self.inode = vfs.files[path]
 
     def fileno(self):
         return self.fd
 
     def _data(self):
-        # a file unlinked/renamed while open keeps working on the original object in a real OS;
-        # the library never does that with a handle it still uses, so fail loudly if it would.
-        return self.vfs.files[self.path]
+        # like a real descriptor the handle stays bound to the file object it opened: after a rename
+        # (FakeOs.rename moves the same bytearray to the new name) writes land in the renamed file,
+        # after an unlink they go nowhere visible
+        return self.inode
 
     def write(self, data):
         if self.closed:
